@@ -126,6 +126,26 @@ impl<'buf> Session<'buf> {
     }
 }
 
+#[cfg(feature = "verif")]
+impl Session<'_> {
+    /// Verification only: consume `n` packet identifiers through the normal allocator.
+    #[doc(hidden)]
+    pub fn verif_burn_packet_ids(&mut self, n: u32) {
+        for _ in 0..n {
+            let _ = self.data.next_packet_id();
+        }
+    }
+}
+
+#[cfg(feature = "verif")]
+impl<IO> Connection<'_, '_, IO> {
+    /// Verification only: see [`Session::verif_burn_packet_ids`].
+    #[doc(hidden)]
+    pub fn verif_burn_packet_ids(&mut self, n: u32) {
+        self.session.verif_burn_packet_ids(n);
+    }
+}
+
 /// A live MQTT connection over a transport `IO`, returned by
 /// [`Session::connect`](Session::connect).
 ///
